@@ -1,2 +1,63 @@
-(* C05 driver section: not implemented yet *)
-let init () = ()
+(* C05: Endemic base OT model (coq/Model/Endemic.v).
+   Lists travel as comma separated hex items inside one argument; a message is 512 items of 33 bytes
+   (r_list[0][0], r_list[0][1], r_list[1][0], ... = the #[repr(C)] byte image). *)
+module M = M_c05
+module S = Proto.Std (M)
+module C = S.C
+
+let split_list (s : string) : string list =
+  if s = "-" || s = "" then [] else String.split_on_char ',' s
+let join_list (l : string list) : string = if l = [] then "-" else String.concat "," l
+
+let rec pairs (l : 'a list) : ('a * 'a) list = match l with
+  | a :: b :: r -> (a, b) :: pairs r
+  | [] -> []
+  | [_] -> failwith "c05: odd number of items"
+
+let msg_of_arg (s : string) = pairs (List.map C.bytes_of_hex (split_list s))
+let arg_of_msg (m : (M.n list * M.n list) list) : string =
+  join_list (List.concat (List.map (fun (a, b) -> [C.hex_of_bytes a; C.hex_of_bytes b]) m))
+
+(* the transcript oracle, instrumented: longest chain of challenges on one transcript (the retry
+   loop of h_function); it must stay below the model's fuel *)
+let max_chain = ref 0
+let transcript (ops : M.top list) : M.n list =
+  let n = List.fold_left (fun acc o -> match o with M.TChallenge (_, _) -> acc + 1 | _ -> acc) 0 ops in
+  if n > !max_chain then max_chain := n;
+  S.transcript ops
+
+let fuel () = C.int_of_n (let rec nat_to_n (k : M.nat) (acc : int) = match k with M.O -> acc | M.S r -> nat_to_n r (acc + 1) in
+                          C.n_of_int (nat_to_n M.h_fuel 0))
+
+let init () =
+  (* recv_new sid bits tas ros -> msg1 maxchain *)
+  Proto.register "c05.recv_new" (fun args -> match args with
+    | [sid; bits; tas; ros] ->
+      max_chain := 0;
+      let g = S.group "k" in
+      let (_, msg1) = M.eot_receiver_new g transcript (C.bytes_of_hex sid) (C.bytes_of_hex bits)
+          (List.map C.z_of_hex (split_list tas)) (split_list ros) in
+      [arg_of_msg msg1; string_of_int !max_chain; string_of_int (fuel ())]
+    | _ -> failwith "c05.recv_new: arity");
+  (* send sid msg1 tbs -> msg2 verdict keys maxchain      (keys: 512 items rho_0, rho_1 per instance) *)
+  Proto.register "c05.send" (fun args -> match args with
+    | [sid; msg1; tbs] ->
+      max_chain := 0;
+      let g = S.group "k" in
+      let (msg2, res) = M.eot_sender_process g transcript (C.bytes_of_hex sid) (msg_of_arg msg1)
+          (pairs (List.map C.z_of_hex (split_list tbs))) in
+      (match res with
+       | M.Val keys -> [arg_of_msg msg2; "ok"; arg_of_msg keys; string_of_int !max_chain]
+       | M.Err e -> [arg_of_msg msg2; "err" ^ C.hex_of_n e; "-"; string_of_int !max_chain]
+       | M.Panic s -> [arg_of_msg msg2; "panic" ^ C.hex_of_n s; "-"; string_of_int !max_chain])
+    | _ -> failwith "c05.send: arity");
+  (* recv_process bits tas msg2 -> verdict bits keys *)
+  Proto.register "c05.recv_process" (fun args -> match args with
+    | [bits; tas; msg2] ->
+      let g = S.group "k" in
+      let st = { M.rs_bits = C.bytes_of_hex bits; M.rs_ta = List.map C.z_of_hex (split_list tas) } in
+      (match M.eot_receiver_process g transcript st (msg_of_arg msg2) with
+       | M.Val (b, keys) -> ["ok"; C.hex_of_bytes b; join_list (List.map C.hex_of_bytes keys)]
+       | M.Err e -> ["err" ^ C.hex_of_n e; "-"; "-"]
+       | M.Panic s -> ["panic" ^ C.hex_of_n s; "-"; "-"])
+    | _ -> failwith "c05.recv_process: arity")
